@@ -8,6 +8,7 @@ package main
 //   liferun <id> <cfg> <nops> <ops...> @@ <snapshot> # <snapshot> ...
 
 import (
+	"path/filepath"
 	"bufio"
 	"crypto/tls"
 	"fmt"
@@ -53,6 +54,12 @@ func startWorker(opts string, race bool) (*workerProc, error) {
 	}
 	cmd := exec.Command(bin, "worker")
 	cmd.Env = os.Environ()
+	// the worker's SYSTEM trust store holds the foreign CA (the one the "other" client certificates
+	// chain to) and nothing else: being trusted by the system must not make a client certificate
+	// acceptable to a server whose configuration names its own CA
+	if ca2 := filepath.Join(certDir(), "ca2.pem"); fileExists(ca2) {
+		cmd.Env = append(cmd.Env, "SSL_CERT_FILE="+ca2, "SSL_CERT_DIR=/nonexistent")
+	}
 	stdin, _ := cmd.StdinPipe()
 	stdout, _ := cmd.StdoutPipe()
 	var errBuf strings.Builder
@@ -470,6 +477,21 @@ func (lr *lifeRun) execOp(t *Toks) error {
 					q = &TReq{Kind: "ext", ID: msgid, Name: []byte("1.3.6.1.4.1.1466.20037")}
 				default:
 					q = &TReq{Kind: "unbind", ID: msgid}
+					// an Unbind may carry controls like any other request; whatever they are (a
+					// critical one of a type gldap does not know, a non-critical one, none) it is an Unbind
+					var cs []TControl
+					switch msgid % 3 {
+					case 0:
+						cs = []TControl{{Kind: "str", OID: "1.3.6.1.4.1.55555.1.1", Crit: true}}
+					case 1:
+						cs = []TControl{{Kind: "str", OID: "1.3.6.1.4.1.55555.1.2", Val: "v"}}
+					}
+					if cs != nil {
+						root := encodeReq(q)
+						root.Kids = append(root.Kids, encControls(cs))
+						buf = append(buf, root.encode()...)
+						continue
+					}
 				}
 				buf = append(buf, encodeReq(q).encode()...)
 			case "bad":
@@ -764,7 +786,7 @@ func runLife(t *Toks) string {
 		switch p[0] {
 		case "recovery", "onclose", "unbind":
 			opts = append(opts, kv)
-		case "tls", "addr", "readtimeout", "dflt", "stopdelay", "nopark":
+		case "tls", "addr", "readtimeout", "dflt", "stopdelay", "nopark", "loglevel":
 			opts = append(opts, kv)
 		case "race":
 			race = p[1] == "1"
@@ -855,4 +877,9 @@ func runLife(t *Toks) string {
 		}
 	}
 	return "OK " + strings.Join(got, " # ")
+}
+
+func fileExists(p string) bool {
+	_, err := os.Stat(p)
+	return err == nil
 }
